@@ -68,8 +68,11 @@ class C01(Prop):
     id = "C01"
     title = "NG Setup + UE registration is accepted by a conformant AMF"
     lean_module = "Stgutg.Props.C01"
-    gen = ["schema", "registry", "templates", "nasie", "naslayout", "nassetters", "extract", "script", "tables"]
-    theorems = ["Stgutg.Props.C01." + t for t in [
+    extra_modules = ["Stgutg.Props.C02Traffic"]
+    gen = ["schema", "registry", "templates", "nasie", "naslayout", "nassetters", "extract", "script", "tables", "traffic"]
+    theorems = ["Stgutg.Props.C02Traffic." + t for t in [
+        # traffic mode (not runnable here) performs NG Setup and registers UE 0 … N−1 exactly as test mode does
+        "C02_traffic_structure", "C02_traffic_is_test_mode"]] + ["Stgutg.Props.C01." + t for t in [
         "autn_take6", "C01_res_star", "table_authenticationResponse", "C01_authentication_response_accepted",
         "C01_wrong_res_star_refused", "C01_registration_protected", "C01_suci", "C01_plmn", "C01_security_capability",
         "isMessage_of_shaped", "C01_ngap_initial_ue_message", "C01_ngap_uplink_nas_transport",
@@ -161,7 +164,9 @@ class C01(Prop):
                     "N <= 10 000 (C16's distinct-id range), and nothing is requested after registration (the procedures after it "
                     "are C02's: C02_script_accepted). The executable reference AMF judges "
                     "every real transcript of the correspondence run; C01_accepted_witness evaluates one conversation in the kernel. "
-                    "Traffic mode (no -t) needs XDP and is neither modelled nor run.")
+                    "Traffic mode (no -t) needs XDP and is not run; its branch of main is tied structurally: gen traffic extracts its "
+                    "signalling skeleton on every run and C02_traffic_is_test_mode shows it makes the calls of test mode with counts "
+                    "(N, N, 0, N, N) for the same UEs in the same order.")
     level_text = ("Lean theorems for all configurations and AMF choices about an executable model of ManageNGSetup / RegisterUE / "
                   "test mode (per-clause composition of C05, C06, C11, C13, C16 against the reference AMF of Spec/Amf.lean); model "
                   "tied to the code by whole-conversation differential runs (real binary and in-process procedures); the "
